@@ -755,7 +755,7 @@ fn churn_stage(cfg: &RunCfg, agg: &Mutex<Agg>) {
         return;
     }
     let threads = 12usize;
-    let iters = crate::count(cfg, 700, 12_000) as usize;
+    let iters = crate::count(cfg, 2500, 30_000) as usize;
     let deadline = Instant::now() + Duration::from_secs(if cfg.thorough { 120 } else { 25 });
     let out = Mutex::new(CaseOut::default());
     let (made, resets, dropped, rounds) = (AtomicU64::new(0), AtomicU64::new(0), AtomicU64::new(0), AtomicU64::new(0));
